@@ -1,5 +1,5 @@
 (** C12: case type and checker. *)
-From GV Require Export ApplyModel Verdict.
+From GV Require Export ApplyModel RootApi Verdict.
 
 Definition aerr_eqb (a b : aerr) : bool :=
   match a, b with
@@ -17,7 +17,47 @@ Definition log_eqb (a b : list (bool * N)) : bool :=
 (** observation after one operation *)
 Record aobs := { ob_err : option aerr; ob_policy : option N; ob_staging : option N; ob_log : list (bool * N); ob_loadable : bool }.
 
-Inductive c12case := C12 (ops : list aop) (obs : list aobs) (parents : list (N * option N)) | C12Panic.
+(** API level: what is read back after one call - its error (0 none, 1 unauthorized key, 2 cannot meet
+    threshold, 3 invalid threshold, 4 Apply refused, 9 anything else), the staged root (principals of
+    the root role, threshold, version, key ids of the envelope's signatures), whether the policy
+    reference equals the staging reference, and whether LoadCurrentState(policy) succeeds *)
+Record apiobs := { ao_err : nat; ao_keys : list key; ao_thr : Z; ao_version : N; ao_signers : list key;
+                   ao_applied : bool; ao_loadable : bool }.
+
+Inductive c12case :=
+| C12 (ops : list aop) (obs : list aobs) (parents : list (N * option N))
+| C12Panic
+| C12Api (p0 : pstate) (steps : list (key * rootop * apiobs)).
+
+Definition kset_eqb (a b : list key) : bool := forallb (fun x => kmem x b) a && forallb (fun x => kmem x a) b.
+
+Definition apierr_code (e : option apierr) : nat :=
+  match e with None => 0 | Some EUnauthorized => 1 | Some ECannotMeet => 2 | Some EInvalidThreshold => 3 | Some EApplyRefused => 4 end.
+
+Definition root_same (ob : apiobs) (keys : list key) (thr : Z) (ver : N) (sg : list key) : bool :=
+  kset_eqb (ao_keys ob) keys && (ao_thr ob =? thr)%Z && N.eqb (ao_version ob) ver && kset_eqb (ao_signers ob) sg.
+
+(** the API clauses on the implementation's own trace: a root-of-trust change by a signer who is not a
+    root principal of the state being edited is refused and changes nothing; a state Apply publishes
+    is loadable *)
+Fixpoint api_spec (keys : list key) (thr : Z) (ver : N) (sg : list key) (steps : list (key * rootop * apiobs)) : nat :=
+  match steps with
+  | [] => 0
+  | (signer, o, ob) :: steps' =>
+      if is_edit o && negb (kmem signer keys) && (Nat.eqb (ao_err ob) 0 || negb (root_same ob keys thr ver sg)) then 10
+      else if (match o with RApply => true | _ => false end) && Nat.eqb (ao_err ob) 0 && negb (ao_applied ob && ao_loadable ob) then 11
+      else api_spec (ao_keys ob) (ao_thr ob) (ao_version ob) (ao_signers ob) steps'
+  end.
+
+Fixpoint api_agree (s : apistate) (steps : list (key * rootop * apiobs)) : bool :=
+  match steps with
+  | [] => true
+  | (signer, o, ob) :: steps' =>
+      let '(e, s1) := api_step s signer o in
+      Nat.eqb (apierr_code e) (ao_err ob)
+      && root_same ob (ps_root_keys (ap_staged s1)) (ps_root_thr (ap_staged s1)) (ps_root_version (ap_staged s1)) (ps_root_signers (ap_staged s1))
+      && api_agree s1 steps'
+  end.
 
 Fixpoint obs_descends (ps : list (N * option N)) (fuel : nat) (c anc : N) : bool :=
   N.eqb c anc ||
@@ -81,6 +121,11 @@ Fixpoint agree_errkinds (s : astate) (ops : list aop) (obs : list aobs) : bool :
 Definition c12_check (c : c12case) : verdict :=
   match c with
   | C12Panic => VSpec 9
+  | C12Api p0 steps =>
+      match api_spec (ps_root_keys p0) (ps_root_thr p0) (ps_root_version p0) (ps_root_signers p0) steps with
+      | S n => VSpec (S n)
+      | 0 => if api_agree (api_init p0) steps then VOk else VMismatch 3
+      end
   | C12 ops obs ps =>
       match trace_spec ps {| ob_err := None; ob_policy := None; ob_staging := None; ob_log := []; ob_loadable := true |} ops obs with
       | S n => VSpec (S n)
